@@ -702,7 +702,28 @@ def r04_14(chk):
     chk.floor("R04.14", 2, "old- and new-type Sequence.__getitem__")
 
 
+def r04_15(chk):
+    chk.rule("R04.15", "a feature added THROUGH a view is stored where the view's residues are: Sequence.add_feature receives spans in the coordinates of the sequence it is called on (its docstring: 'coordinates for this sequence') and writes them to the annotation db, whose coordinates are the parent's -- so the spans handed to annotation_db.add_feature must first go through the view's coordinate conversion (absolute_position / the parent offset), as get_features does in the other direction; written as they are, a feature added on s[5:20] at (2, 5) is stored at parent (2, 5): the parent shows other residues and the view itself does not find it")
+    n = 0
+    for rel in ("core/sequence.py", "core/new_sequence.py"):
+        m = chk.repo.module(rel)
+        q = "Sequence.add_feature"
+        if not m.has_func(q):
+            continue
+        fn = m.func(q)
+        writes = [c for c in walk_no_nested(fn) if isinstance(c, ast.Call) and norm(c.func).endswith("annotation_db.add_feature")]
+        if not writes:
+            continue
+        n += 1
+        conv = [c for c in walk_no_nested(fn) if isinstance(c, ast.Call) and isinstance(c.func, ast.Attribute) and c.func.attr in ("absolute_position", "parent_coordinates", "_absolute_spans", "to_parent_coordinates")]
+        offs = [x for x in walk_no_nested(fn) if isinstance(x, ast.Attribute) and x.attr in ("annotation_offset", "parent_start", "offset") and isinstance(x.ctx, ast.Load)]
+        k = key(m, q, "spans converted to parent coordinates before they are stored")
+        chk.decide(bool(conv or offs), "R04.15", k, m.loc(writes[0]), "spans pass through the view's coordinate conversion", "the spans are written to the annotation db exactly as given (view-relative): s = make_seq(...); v = s[5:20]; v.add_feature(biotype='x', name='x', spans=[(2, 5)]) -- s.get_features(name='x') slices s[2:5] instead of s[7:10], and v.get_features(name='x') finds nothing")
+    chk.floor("R04.15", 2, "old and new Sequence.add_feature")
+
+
 def run(chk):
+    r04_15(chk)
     r04_14(chk)
     r04_13(chk)
     r04_12(chk)
